@@ -55,7 +55,17 @@ def run(lines, out, args):
             with_self = kind == "M"
             code = build(posonly, pos, va, kwonly, kw, nlocals, with_self)
             defaults = tuple(Dflt(first + i) for i in range(ndef))
-            fn = types.FunctionType(code, {}, "f", defaults or None)
+            # the function is described once BEFORE it gets its final defaults and attributes (a description must not
+            # be remembered per function) ...
+            fn = types.FunctionType(code, {}, "f", tuple(Dflt(5000 + i) for i in range(ndef)) or None)
+            try:
+                if kind in "MS":
+                    fromMethod(type("C0", (), {"f": fn})().f)
+                else:
+                    fromFunction(fn)
+            except Exception:  # noqa
+                pass
+            fn.__defaults__ = defaults or None
             if kwd != "-":
                 kd = {"k%d" % i: Dflt(900 + i) for i, c in enumerate(kwd) if c == "1"}
                 if kd:
@@ -69,7 +79,11 @@ def run(lines, out, args):
                 m = fromMethod(target)
                 imlevel = 1
             elif kind == "I":
-                I = InterfaceClass("I", (Interface,), {"f": fn}, __module__="zi.gen")
+                # ... and the interface also holds another function made from the SAME code object with other defaults
+                # and attributes (functions produced by one `def` in a factory or loop)
+                g = types.FunctionType(code, {}, "g", tuple(Dflt(7000 + i) for i in range(ndef)) or None)
+                g.colour = "blue"
+                I = InterfaceClass("I", (Interface,), {"g": g, "f": fn}, __module__="zi.gen")
                 m = I["f"]
                 target = fn
                 imlevel = 0
